@@ -37,6 +37,9 @@ pub struct Case {
     pub adds: Vec<(u8, String, MValue)>,
     /// fresh instances built from the same program (each gets fresh map keys)
     pub instances: u8,
+    /// non-operation groups inserted at the FRONT of the in-memory group list through `groups_mut()` after all adds
+    #[serde(default)]
+    pub front_groups: Vec<(u8, Vec<(String, MValue)>)>,
 }
 
 #[derive(Clone, Copy)]
@@ -136,6 +139,13 @@ fn build(case: &Case) -> IppRequestResponse {
     for (g, n, v) in &case.adds {
         req.attributes_mut().add(delim_from_u8(*g), IppAttribute::new(n, v.to_ipp()));
     }
+    for (tag, attrs) in &case.front_groups {
+        let mut grp = IppAttributeGroup::new(delim_from_u8(*tag));
+        for (n, v) in attrs {
+            grp.attributes_mut().insert(n.clone(), IppAttribute::new(n, v.to_ipp()));
+        }
+        req.attributes_mut().groups_mut().insert(0, grp);
+    }
     req
 }
 
@@ -234,7 +244,13 @@ impl Prop for C09 {
         }
         let host = *rng.pick(&["localhost", "printer.example.com", "127.0.0.1", "[::1]"]);
         let uri = format!("{}://{}{}/printers/{}", rng.pick(&["ipp", "ipps", "http"]), host, rng.pick(&["", ":631", ":8631"]), gen_ascii(rng, 8));
-        Case { uri, entry, adds, instances: 4 }
+        let mut front_groups = Vec::new();
+        if rng.chance(1, 6) {
+            let tag = *rng.pick(&[0x02u8, 0x04, 0x05]);
+            let n = rng.usize(0, 2);
+            front_groups.push((tag, (0..n).map(|_| (gen_ascii(rng, 8) + "f", simple_value(rng))).collect()));
+        }
+        Case { uri, entry, adds, instances: 4, front_groups }
     }
 
     fn run(&self, case: &Case, record: bool) -> RunReport {
@@ -254,41 +270,48 @@ impl Prop for C09 {
                 }
             };
             rep.count("instances_built", 1);
-            let (first, names) = match refcodec::first_group_names(&bytes) {
-                Some(x) => x,
-                None => {
-                    rep.violate("first-group-not-operation", "no delimiter follows the 8-byte header".into());
-                    return rep;
-                }
+            let groups = refcodec::group_names(&bytes);
+            let Some((first, names)) = groups.first().cloned() else {
+                rep.violate("first-group-not-operation", "no delimiter follows the 8-byte header".into());
+                return rep;
             };
-            for n in &names {
-                h.bytes(n.as_bytes());
-                h.u8(0);
+            // operation attributes that ended up in a later operation group are still "present" in the message
+            let later_op: Vec<&String> = groups.iter().skip(1).filter(|g| g.0 == 0x01).flat_map(|g| g.1.iter()).collect();
+            if !later_op.is_empty() {
+                rep.count("instances_with_a_second_operation_group", 1);
+            }
+            for g in &groups {
+                h.u8(g.0);
+                for n in &g.1 {
+                    h.bytes(n.as_bytes());
+                    h.u8(0);
+                }
             }
             h.u8(0xff);
             orders_seen.insert(names.clone());
             let pos = |n: &str| names.iter().position(|x| x == n);
+            let present = |n: &str| names.iter().any(|x| x == n) || later_op.iter().any(|x| x.as_str() == n);
             let mut bad: Option<(&str, String)> = None;
             if first != 0x01 {
-                bad = Some(("first-group-not-operation", format!("first delimiter is {first:#04x}")));
+                bad = Some(("first-group-not-operation", format!("first delimiter is {first:#04x}; groups: {:?}", groups.iter().map(|g| g.0).collect::<Vec<_>>())));
             } else if names.first().map(|s| s.as_str()) != Some("attributes-charset") {
                 bad = Some(("charset-not-first", format!("order: {names:?}")));
             } else if names.get(1).map(|s| s.as_str()) != Some("attributes-natural-language") {
                 bad = Some(("language-not-second", format!("order: {names:?}")));
-            } else if let Some(p) = pos("printer-uri") {
+            } else if present("printer-uri") {
                 rep.count("has_printer_uri", 1);
-                if p != 2 {
-                    bad = Some(("printer-uri-not-third", format!("printer-uri at position {} (1-based); order: {names:?}", p + 1)));
-                } else if let Some(j) = pos("job-id") {
+                if pos("printer-uri") != Some(2) {
+                    bad = Some(("printer-uri-not-third", format!("printer-uri at {:?} (0-based) of the first group; groups: {groups:?}", pos("printer-uri"))));
+                } else if present("job-id") {
                     rep.count("has_printer_uri_and_job_id", 1);
-                    if j != 3 {
-                        bad = Some(("job-id-not-fourth", format!("job-id at position {} (1-based) in instance {inst}; order: {names:?}", j + 1)));
+                    if pos("job-id") != Some(3) {
+                        bad = Some(("job-id-not-fourth", format!("job-id at {:?} (0-based) of the first group in instance {inst}; groups: {groups:?}", pos("job-id"))));
                     }
                 }
-            } else if let Some(p) = pos("job-uri") {
+            } else if present("job-uri") {
                 rep.count("has_job_uri_only", 1);
-                if p != 2 {
-                    bad = Some(("job-uri-not-third", format!("job-uri at position {} (1-based) in instance {inst}; order: {names:?}", p + 1)));
+                if pos("job-uri") != Some(2) {
+                    bad = Some(("job-uri-not-third", format!("job-uri at {:?} (0-based) of the first group in instance {inst}; groups: {groups:?}", pos("job-uri"))));
                 }
             }
             if names.len() >= 5 {
@@ -311,6 +334,9 @@ impl Prop for C09 {
 
     fn shrink(&self, c: &Case) -> Vec<Case> {
         let mut out = Vec::new();
+        if !c.front_groups.is_empty() {
+            out.push(Case { front_groups: vec![], ..c.clone() });
+        }
         for i in 0..c.adds.len() {
             let mut a = c.adds.clone();
             a.remove(i);
@@ -333,7 +359,7 @@ impl Prop for C09 {
     }
 
     fn rule(&self) -> String {
-        "Each run executes on a fresh OS thread whose HashMap keys derive from the run seed (getrandom interposed), builds a seeded program — one of 12 entry points (10 operation builders, IppRequestResponse::new with/without URI, new_response) with seeded optional parameters, then 0-12 further attributes_mut().add() calls in seeded order incl. re-adding the reserved names and job-uri when no printer-uri exists — four times (four fresh map key sets), serialises each with to_bytes() and reads the attribute names of the first group with the reference tokenizer. Oracle = the statement: first delimiter 0x01; attributes-charset first; attributes-natural-language second; printer-uri third if present, else job-uri third if present; job-id fourth when printer-uri and job-id are both present. distinct_nontrivial = distinct (program, observed order per instance) hashes among runs whose operation group has >= 4 attributes."
+        "Each run executes on a fresh OS thread whose HashMap keys derive from the run seed (getrandom interposed), builds a seeded program — one of 12 entry points (10 operation builders, IppRequestResponse::new with/without URI, new_response) with seeded optional parameters, then 0-12 further attributes_mut().add() calls in seeded order incl. re-adding the reserved names and job-uri when no printer-uri exists, and in 1 of 6 programs a non-operation group inserted at the front of the group list through groups_mut() — four times (four fresh map key sets), serialises each with to_bytes() and reads the attribute names of every group with the reference tokenizer (a target attribute that ended up in a later operation group still counts as present). Oracle = the statement: first delimiter 0x01; attributes-charset first; attributes-natural-language second; printer-uri third if present, else job-uri third if present; job-id fourth when printer-uri and job-id are both present. distinct_nontrivial = distinct (program, observed order per instance) hashes among runs whose operation group has >= 4 attributes."
             .into()
     }
     fn assumptions(&self) -> Vec<String> {
